@@ -31,6 +31,7 @@ inductive Err where
   | emptySegment      -- "input plaintext/ciphertext is empty"
   | hdrInvalidFormat | hdrUnsupportedScheme | hdrNoScheme | hdrNoManifest | hdrNoMac
   | invalidManifest | keyMissing | macDecode | signature
+  | emptyWrappedKey   -- Encrypt: WrapKeyFn returned an empty wrapped key
   | fuel              -- model artefact: never produced (theorem `*_no_fuel`)
   deriving DecidableEq, Repr
 
@@ -40,7 +41,7 @@ def Err.name : Err → String
   | .hdrInvalidFormat => "hdrInvalidFormat" | .hdrUnsupportedScheme => "hdrUnsupportedScheme"
   | .hdrNoScheme => "hdrNoScheme" | .hdrNoManifest => "hdrNoManifest" | .hdrNoMac => "hdrNoMac"
   | .invalidManifest => "invalidManifest" | .keyMissing => "keyMissing" | .macDecode => "macDecode"
-  | .signature => "signature" | .fuel => "fuel"
+  | .signature => "signature" | .emptyWrappedKey => "emptyWrappedKey" | .fuel => "fuel"
 
 inductive Terminal where
   | ok
@@ -426,7 +427,8 @@ def encryptImpl (c : Crypto) (cd : Codec) (P : EncParams) (o : EncryptOpts) (fk 
     (r : Reader) : Bytes × Terminal :=
   let manifest := cd.render (mkManifest o wfk np)
   let header := signHeader c cd P fk manifest
-  if header.length > P.segSize then ([], .err .hdrInvalidFormat)
+  if wfk.isEmpty then ([], .err .emptyWrappedKey)   -- `len(wrappedFileKey) == 0`: Decrypt would reject the manifest
+  else if header.length > P.segSize then ([], .err .hdrInvalidFormat)
   else
     let res := processSegments P.segSize P.maxSeg (encryptSeg c P o.cph (payloadKey c P fk np) np) r
     (header ++ res.out, res.term)
@@ -442,8 +444,10 @@ def decryptSeg (c : Crypto) (P : EncParams) (cph : Nat) (pk np : Bytes) : ProcFn
 
 structure DecryptOpts where
   keyName : Bytes := []
-  /-- `UnwrapKeyFn(wfk, alg, keyName, nil, nil)`; the error is ignored by `Decrypt` -/
+  /-- the key bytes `UnwrapKeyFn(wfk, alg, keyName, nil, nil)` returns -/
   unwrap : Manifest → Bytes → Bytes
+  /-- whether `UnwrapKeyFn` returns a non-nil error -/
+  unwrapFails : Manifest → Bytes → Bool := fun _ _ => false
 
 /-- `VerifyHeaderSignature` -/
 def verifyHeader (c : Crypto) (cd : Codec) (P : EncParams) (fk manifest macB64 : Bytes) : Option Err :=
@@ -451,7 +455,20 @@ def verifyHeader (c : Crypto) (cd : Codec) (P : EncParams) (fk manifest macB64 :
   | none => some .macDecode
   | some mac => if headerMac c P fk manifest = mac then none else some .signature
 
-def decryptWith (propagate : Bool) (c : Crypto) (cd : Codec) (P : EncParams) (o : DecryptOpts) (r : Reader) :
+/-- `unwrapFailed := unwrapErr != nil || len(fileKeyBytes) != 32`. With `refuse = false` (the code before
+    `fix: … substituted all-zero key`) the error was ignored and only the length mattered. -/
+def unwrapFailed (refuse : Bool) (P : EncParams) (o : DecryptOpts) (m : Manifest) (kn : Bytes) : Bool :=
+  (refuse && o.unwrapFails m kn) || decide ((o.unwrap m kn).length ≠ P.fkLen)
+
+/-- The key `Decrypt` imports: the unwrapped key, or — when the unwrap failed — `make([]byte, 32)`,
+    used only so that the MAC check still runs. -/
+def effKey (refuse : Bool) (P : EncParams) (o : DecryptOpts) (m : Manifest) (kn : Bytes) : Bytes :=
+  if unwrapFailed refuse P o m kn then List.replicate P.fkLen 0 else o.unwrap m kn
+
+/-- `propagate` / `refuse` select the code after (`true`) or before (`false`) the two `fix:` commits:
+    `readHeader` returning a late read error, and `Decrypt` refusing a document whose MAC verifies only
+    under the substituted all-zero key. -/
+def decryptWith (propagate refuse : Bool) (c : Crypto) (cd : Codec) (P : EncParams) (o : DecryptOpts) (r : Reader) :
     Bytes × Terminal :=
   match readHeaderWith propagate P r with
   | .error e => ([], .err e)
@@ -464,19 +481,20 @@ def decryptWith (propagate : Bool) (c : Crypto) (cd : Codec) (P : EncParams) (o 
         let keyName := if o.keyName.isEmpty then m.keyName else o.keyName
         if keyName.isEmpty then ([], .err .keyMissing)
         else
-          let fk0 := o.unwrap m keyName
-          let fk := if fk0.length ≠ P.fkLen then List.replicate P.fkLen 0 else fk0
+          let fk := effKey refuse P o m keyName
           match verifyHeader c cd P fk mline macline with
           | some e => ([], .err e)
           | none =>
-            let res := processSegments (P.segSize + P.overhead) P.maxSeg
-              (decryptSeg c P m.cph (payloadKey c P fk m.np) m.np) r'
-            (res.out, res.term)
+            if refuse && unwrapFailed refuse P o m keyName then ([], .err .signature)
+            else
+              let res := processSegments (P.segSize + P.overhead) P.maxSeg
+                (decryptSeg c P m.cph (payloadKey c P fk m.np) m.np) r'
+              (res.out, res.term)
 
 /-- `Decrypt`: released bytes (what the consumer of the returned stream reads before the
     terminal) and the terminal (`ok` = clean EOF). Errors returned by `Decrypt` itself are
     reported as a terminal with nothing released. -/
-def decryptImpl := decryptWith true
+def decryptImpl := decryptWith true true
 
 /-! ## specification (README.md only) -/
 
